@@ -60,7 +60,8 @@ def make_rule(name, k, tie_breaker, zero_indexed):
 
 def profile_obj(P, dtype=np.int64):
     from socialchoicekit.profile_utils import StrictCompleteProfile
-    return StrictCompleteProfile.of(np.array(P, dtype=dtype))
+    from harness.common import relayout
+    return StrictCompleteProfile.of(relayout(np.array(P, dtype=dtype)))
 
 
 def exact_scores(name, k, P, m):
